@@ -332,12 +332,15 @@ def _conc_step_one(R, prop, extra_args=None, cases=None, suite="conc"):
                 continue
             b = "%s.%d" % (base, j)
             cmd = [C.HARNESS_BIN, suite, "--seed", str(seed), "--first", str(first), "--cases", str(cnt), "--lin", b + ".lin", "--progress", b + ".progress"]
+            if prop == "C10":
+                cmd += ["--ctl", b + ".ctl"]
             if R.tier == "thorough":
                 cmd += ["--big", "1"]
             cmd += extra_args or []
             procs.append((b, subprocess.Popen(cmd, stdout=subprocess.PIPE, stderr=subprocess.STDOUT, text=True)))
         crashed = False
         lin_src = []
+        ctl_src = []
         for b, pr in procs:
             try:
                 out, _ = pr.communicate(timeout=7200)
@@ -365,10 +368,35 @@ def _conc_step_one(R, prop, extra_args=None, cases=None, suite="conc"):
                     R.add_failing(f, {"suite": suite, "how": "%s %s %s --case-seed %s --verbose 1" % (C.HARNESS_BIN, suite, " ".join(extra_args or []), m.group(1) if m else "?")})
             if os.path.exists(b + ".lin"):
                 lin_src += open(b + ".lin").read().splitlines()
+            if os.path.exists(b + ".ctl"):
+                ctl_src += open(b + ".ctl").read().splitlines()
         for b, _ in procs:
-            for ext in (".lin", ".progress"):
+            for ext in (".lin", ".progress", ".ctl"):
                 if os.path.exists(b + ext):
                     os.remove(b + ext)
+        if prop == "C10" and os.path.exists(C.MODEL_BIN) and ctl_src:
+            # the run's accesses to size_ctl / transfer_index / table / next_table, replayed by the
+            # Lean monitor of the resize theorems' conclusions (Proto/ResizeMonitor.lean)
+            heads = [l for l in ctl_src if l.startswith("#")]
+            reqs = [l for l in ctl_src if not l.startswith("#")]
+            open(base + ".ctl", "w").write("\n".join(reqs) + "\n")
+            rc2, mout = C.sh("%s < %s.ctl" % (C.MODEL_BIN, base), timeout=1200)
+            os.remove(base + ".ctl")
+            ans = [l for l in mout.splitlines() if not l.startswith("WARNING")]
+            if len(ans) != len(reqs):
+                R.add_broken("correspondence control-words-vs-ResizeMonitor: the monitor answered %d of %d streams (%s)" % (len(ans), len(reqs), mout[-200:]))
+            for h, a in zip(heads, ans):
+                agg["control_word_streams_accepted_by_lean_monitor"] = agg.get("control_word_streams_accepted_by_lean_monitor", 0) + (1 if a.startswith("ok") else 0)
+                mm = re.search(r"inits=(\d+) joins=(\d+) pubs=(\d+)", a)
+                if mm:
+                    agg["resizes_monitored"] = agg.get("resizes_monitored", 0) + int(mm.group(1))
+                    agg["helper_joins_monitored"] = agg.get("helper_joins_monitored", 0) + int(mm.group(2))
+                if a.startswith("bad-op"):
+                    R.add_broken("correspondence control-words-vs-ResizeMonitor: request not understood (%s)" % h)
+                elif a.startswith("bad"):
+                    m = re.search(r"case-seed (\d+) mode (\w+)", h)
+                    R.add_failing("[resize-monitor] the control-word accesses of a scheduled run contradict the resize theorems: %s (%s)" % (a, h[2:]),
+                                  {"suite": suite, "how": "%s %s --mode %s --case-seed %s --verbose 1" % (C.HARNESS_BIN, suite, m.group(2) if m else "?", m.group(1) if m else "?")})
         if crashed:
             break
         if prop in ("C01", "C08") and os.path.exists(C.MODEL_BIN) and lin_src:
@@ -770,6 +798,63 @@ def check_C04(R):
         conc_step(R, "C04", extra_args=["--life", "1"], modes=("mixed", "tree", "resize", "treeresize", "clear"), merge=True)
 
 
+def frozen_chain_step(R):
+    """correspondence of the traverser model on frozen chains: an iterator of the real map runs while
+    every other thread is suspended (usually in the middle of a resize); the chain of tables it
+    starts from is dumped through the inspector; the Lean traverser run on that chain must yield
+    the same entries in the same order, and the chain must satisfy the theorem's hypothesis"""
+    n = 600 if R.tier == "quick" else 20000
+    nshard = max(1, min(C.JOBS, n // 40))
+    per = (n + nshard - 1) // nshard
+    base = os.path.join(C.BUILD, "run", "trav-%d" % os.getpid())
+    os.makedirs(os.path.dirname(base), exist_ok=True)
+    procs = []
+    for j in range(nshard):
+        b = "%s.%d" % (base, j)
+        procs.append((b, subprocess.Popen([C.HARNESS_BIN, "conc", "--mode", "frozeniter", "--seed", str(R.seed), "--first", str(j * per), "--cases", str(per), "--trav", b + ".trav"],
+                                          stdout=subprocess.PIPE, stderr=subprocess.STDOUT, text=True)))
+    lines = []
+    for b, pr in procs:
+        out, _ = pr.communicate(timeout=3600)
+        if pr.returncode != 0:
+            R.add_failing("[crash] the harness died (exit %d) in mode frozeniter" % pr.returncode, {"suite": "conc", "how": "%s conc --mode frozeniter --seed %d" % (C.HARNESS_BIN, R.seed)})
+        if os.path.exists(b + ".trav"):
+            lines += open(b + ".trav").read().splitlines()
+            os.remove(b + ".trav")
+    heads = [l for l in lines if l.startswith("#")]
+    reqs = [l for l in lines if l.startswith("trav")]
+    wants = [l[5:] for l in lines if l.startswith("want")]
+    if not reqs or not os.path.exists(C.MODEL_BIN):
+        R.add_broken("correspondence frozen-chain: no chains were produced or the model driver is missing")
+        return
+    open(base + ".req", "w").write("\n".join(reqs) + "\n")
+    rc, mout = C.sh("%s < %s.req" % (C.MODEL_BIN, base), timeout=1200)
+    os.remove(base + ".req")
+    ans = [l for l in mout.splitlines() if not l.startswith("WARNING")]
+    if len(ans) != len(reqs):
+        R.add_broken("correspondence frozen-chain: the model answered %d of %d requests" % (len(ans), len(reqs)))
+    forwarded = sum(1 for r in reqs if ";" in r)
+    bad = 0
+    for h, r, w, a in zip(heads, reqs, wants, ans):
+        y = a.split("yields=")[1] if "yields=" in a else None
+        m = re.search(r"case-seed (\d+)", h)
+        how = {"suite": "conc", "how": "%s conc --mode frozeniter --case-seed %s --verbose 1" % (C.HARNESS_BIN, m.group(1) if m else "?"), "chain": r[:2000], "implementation_yields": w[:1000], "model": a[:1000]}
+        if "wf=true" not in a:
+            bad += 1
+            R.add_failing("[frozen-chain] the chain of tables dumped from the implementation is not well formed (next table not twice as long, or a forwarding marker in the last table): " + r[:300], how)
+        elif y != w:
+            bad += 1
+            # the model is a transcription: a disagreement is a broken correspondence; it is a violation
+            # of C07 when the implementation's yield is not a permutation of the chain's contents
+            ys, cs = sorted(w.split(",")) if w else [], sorted(y.split(",")) if y else []
+            if ys != cs:
+                R.add_failing("[frozen-chain] an iterator running alone on a frozen structure yields %s, but the structure holds %s" % (w[:300], y[:300]), how)
+            else:
+                R.add_broken("correspondence frozen-chain: same entries, different order: implementation %s, Lean traverser %s (%s)" % (w[:200], y[:200], h))
+    R.cov["frozen_chains"] = {"chains": len(reqs), "with_forwarded_bins": forwarded, "disagreements": bad}
+    R.cov["rule"] = R.cov.get("rule", "") + " || frozen chains: %d iterations of the real map with all other threads suspended (%d in the middle of a resize), yield ORDER compared with Seq.Iter.traverse on the dumped chain" % (len(reqs), forwarded)
+
+
 def check_C07(R):
     R.trusted = TRUSTED_COMMON + ["the traverser model Flurry/Seq/Iter.lean is a hand transcription of src/iter/traverser.rs"]
     R.assumptions = ["PARTIAL for concurrent mutation: weak consistency during concurrent inserts/removals/resizes is judged on recorded histories (iter oracle), the theorem covers frozen forwarding structures of any depth"]
@@ -777,6 +862,7 @@ def check_C07(R):
     lean_step(R, "C07")
     if harness_step(R):
         conc_step(R, "C07", modes=("iter",))
+        frozen_chain_step(R)
 
 
 def check_C11(R):
